@@ -21,6 +21,21 @@ CHECKS["C01"] = dict(
    note="Trusted: harness/lie.py embedding (60 lines, textbook parameterisations), CasADi evaluation. Not decided: irrational rotations/translations between lattice points; MRP products near (not at) the 360-degree singularity.",
 )
 
+CHECKS["C07"] = dict(
+   technique="TLA+ spec Convert.tla (conversion = identity on the signed integer quaternion + representative rule; Euler triples proved equal to Rz Ry Rx by TLC) model-checked by TLC; every state replayed into from_Quat/from_Mrp/from_Dcm/from_Euler/from_Matrix/shadow_if_necessary",
+   category="model_checking",
+   text="TLC enumerates all 12 ordered representation pairs, the 4 from-matrix entry points and the shadow switch over primitive integer quaternions of QLat(2) (quick) / QLat(3) (thorough) plus special cells: both signs, exactly 180 deg, near identity on both sides of -1, near 180 deg, exact gimbal poles, inside the 1e-3 band, just outside it, all four Shepperd branches (coverage-checked). The code's result must have the exact rational rotation matrix (1e-9; 2e-3 inside the documented band for Euler targets) and be a valid representative.",
+   design_ref="6/C07",
+   note="Trusted: harness/lie.py embedding. Not decided: irrational rotations between lattice points.",
+)
+CHECKS["C04"] = dict(
+   technique="TLA+ spec Adjoint.tla (Ad by matrix conjugation, ad/bracket by commutators, textbook closed forms proved equal by TLC, Jacobi/antisymmetry/homomorphism invariants) model-checked by TLC; every state replayed into Ad(), ad(), bracket, algebra to_Matrix",
+   category="model_checking",
+   text="TLC computes Ad_X column-by-column as vee(Mat(X) E_k Mat(X)^-1) in exact rationals for all 12 singleton groups, ad_x and brackets as commutators for all 7 algebras and 3 direct sums, and proves on every state: closed-form block Ad = conjugation, Ad(XY)=Ad(X)Ad(Y), Ad(X^-1)Ad(X)=I, ad_x y=[x,y], antisymmetry, Jacobi. Each state is one two-sided test of the code (shape must be n_param x n_param, values within 1e-9).",
+   design_ref="6/C04",
+   note="Ad and bracket on direct products raise NotImplementedError (out of scope, counted). The clause Ad_exp(x)=expm(ad_x) is decided with the ExpLog vectors of C02 (op AdExp). Not decided: irrational elements.",
+)
+
 NOT_YET = {}
 
 ALL = [f"C{i:02d}" for i in range(1, 21)]
